@@ -123,8 +123,9 @@ def check(ctx, floors=True, only_literals=False):
     if len(dflt) == 1:
         expect_term(ctx, "C09.2", "settings/default", dflt[0]["sp"], Norm(dflt[0]).term(dflt[0]["body"]),
                     ["settings::TypeGeneratorSettings{alloc_crate_path:%s,compact_as_type_path:v1::None,compact_type_path:v1::None,decoded_bits_type_path:v1::None,"
-                     "derives:DerivesRegistry::new(),insert_codec_attributes:false,should_gen_docs:true,substitutes:TypeSubstitutes::new(),types_mod_ident:T[types]()}" % a
-                     for a in ("Default::default()", "AllocCratePath::Std")],          # (the default alloc path IS Std: C09.2 ctor rule)
+                     "derives:DerivesRegistry::new(),insert_codec_attributes:false,should_gen_docs:true,substitutes:TypeSubstitutes::new(),types_mod_ident:%s}" % (a, i)
+                     for a in ("Default::default()", "AllocCratePath::Std")          # (the default alloc path IS Std: C09.2 ctor rule)
+                     for i in ("T[types]()", "Ident::new('types',Span::call_site())")],
                     "defaults: root `types`, docs on, codec attributes off, no compact / bits paths, empty derives and substitutes, std alloc path")
     else:
         ctx.bad("C09.2", "missing-anchor/Default for TypeGeneratorSettings", "", "default settings not found")
